@@ -227,3 +227,112 @@ theorem RwView.reopen_wav {h : H} {s : Store} {R W F : Nat} {hdr D : List Byte} 
   · rw [h9, ← himg, List.append_assoc, ← hhl]; simp
 
 end Sf
+
+namespace Sf
+
+/-! ## close, then open SFM_RDWR again (the "pre-populated file" of the statement) -/
+
+theorem openHandle_rw_parsed (ix : Nat) (bs : List Byte) (pos : Nat) (fmt0 : Nat) (ch0 sr0 : Int) (p : Parsed)
+    (c : Container) (enc : Enc) (hne : bs ≠ [])
+    (hraw : containerOf fmt0 ≠ some .raw) (hp : parseAny bs = .ok p) (hc : containerOf p.fmtWord = some c)
+    (he : encOf c (codecOf p.fmtWord) p.big = some enc) (hsr : 1 ≤ p.sr) :
+    ∃ h' s', openHandle ix ⟨bs, pos⟩ .rw fmt0 ch0 sr0 = .ok h' s' ∧
+      h'.frames = (initFrames p.dataoffset p.dataend p.filelength (enc.nbytes * p.ch)).2 ∧
+      h'.ch = p.ch ∧ h'.enc = enc ∧ h'.container = c ∧ h'.fmtWord = p.fmtWord ∧ h'.peak = p.peak ∧
+      h'.peakAtStart = p.peakAtStart ∧ h'.dataend = p.dataend ∧
+      h'.dataoffset = p.dataoffset ∧ s'.bytes = bs := by
+  have hraw' : (containerOf fmt0 == some Container.raw) = false := by simpa using hraw
+  have hsr' : ¬ p.sr < 1 := by omega
+  have hlen : ¬ bs.length = 0 := by intro h0; exact hne (List.eq_nil_of_length_eq_zero h0)
+  simp [parseAny] at hp
+  unfold openHandle
+  simp [Store.seekSet, hraw', hp, hc, he, hsr', hlen]
+  exact ⟨_, _, ⟨rfl, rfl⟩, rfl, rfl, rfl, rfl, rfl, rfl, rfl, rfl, rfl, rfl⟩
+
+end Sf
+
+namespace Sf
+
+/-- what the second RDWR session starts from -/
+structure ReopenedRw (h : H) (F : Nat) (D : List Byte) (h' : H) (s' : Store) : Prop where
+  inv : RwInv h' s'
+  abs : absOf h' s' = { frames := groups h.bw D, rpos := 0, wpos := F }
+  ch : h'.ch = h.ch
+  enc : h'.enc = h.enc
+
+theorem ReopenedRw.of_open {h : H} {F : Nat} {D : List Byte} {ix : Nat} {s0 : Store} {fmt : Nat} {ch sr : Int}
+    {h' : H} {s' : Store} (ho : openHandle ix s0 .rw fmt ch sr = .ok h' s') (hch : h'.ch = h.ch) (henc : h'.enc = h.enc)
+    (hfr : h'.frames = (F : Int)) (hdo : h'.dataoffset = (hdrLenOf h' : Nat)) (hpk : h'.peak = none)
+    (hde : h'.dataend = 0) (hD : D.length = F * h.bw) (hdata : s'.bytes.drop (hdrLenOf h') = D)
+    (hlen : hdrLenOf h' ≤ s'.bytes.length) : ReopenedRw h F D h' s' := by
+  have eb : h'.bw = h.bw := by unfold H.bw; rw [henc, hch]
+  have hl : s'.bytes.length = hdrLenOf h' + D.length := by
+    have := congrArg List.length hdata
+    rw [List.length_drop] at this; omega
+  have ht : OpenTight h' s' := ⟨hdo, hpk, hde, by rw [hl, hdo, hfr, hD, eb]; push_cast; rfl⟩
+  obtain ⟨_, _, hr, _, hw, _, _, _⟩ := open_rw_facts ix s0 fmt ch sr h' s' ho
+  refine ⟨RwInv_open ix s0 fmt ch sr h' s' ho ht, ?_, hch, henc⟩
+  unfold absOf dataRegion
+  rw [hdo, hfr, hr, hw, hfr, Int.toNat_natCast, Int.toNat_natCast, hdata, eb, ← hD, List.take_length]
+  rfl
+
+theorem RwView.reopen_rw_raw {h : H} {s : Store} {R W F : Nat} {hdr D : List Byte} (v : RwView h s R W F hdr D)
+    {fmt : Nat} {ch sr : Int} (cfg : CfgOf fmt ch sr h) (hc : h.container = .raw) (ix pos : Nat) :
+    ∃ h' s', openHandle ix ⟨(closeHandle h s).bytes, pos⟩ .rw fmt ch sr = .ok h' s' ∧ ReopenedRw h F D h' s' := by
+  rw [v.close_raw hc]
+  -- the RDWR open of a RAW file succeeds whenever the read-only one does; get it from the definition
+  have hcont : containerOf fmt = some .raw := by rw [cfg.cont, hc]
+  have henc : encOf .raw (codecOf fmt) (dataBig .raw fmt) = some h.enc := by
+    have := cfg.enc
+    have hb := cfg.big
+    rw [hc] at this hb
+    rw [← hb]; exact this
+  have h1 : ¬ (ch < 1 ∨ ch > 1024 ∨ sr < 0) := by have := cfg.chr; have := cfg.srr; omega
+  have h2 : ¬ sr < 1 := by have := cfg.srr; omega
+  have hex : ∃ h' s', openHandle ix ⟨D, pos⟩ .rw fmt ch sr = .ok h' s' ∧ h'.ch = ch.toNat ∧ h'.enc = h.enc ∧
+      h'.container = .raw := by
+    unfold openHandle
+    simp only [hcont, henc, h1, h2, Store.seekSet]
+    simp
+  obtain ⟨h', s', ho, e1, e2, e3⟩ := hex
+  obtain ⟨_, _, _, _, _, _, _, hraw⟩ := open_rw_facts ix ⟨D, pos⟩ fmt ch sr h' s' ho
+  obtain ⟨a, b, c, d, e⟩ := hraw e3
+  have hch : h'.ch = h.ch := by rw [e1, cfg.hch]
+  have eb : h'.bw = h.bw := by unfold H.bw; rw [e2, hch]
+  have hO : hdrLenOf h' = 0 := by simp [hdrLenOf, e3]
+  refine ⟨h', s', ho, ReopenedRw.of_open ho hch e2 ?_ (by rw [a, hO]; rfl) b c v.dlen (by rw [hO, d]; rfl) (by rw [hO]; omega)⟩
+  rw [e]; simp only; rw [eb, v.dlen, Nat.mul_div_cancel _ v.bw_pos]
+
+theorem RwView.reopen_rw_au {h : H} {s : Store} {R W F : Nat} {hdr D : List Byte} (v : RwView h s R W F hdr D)
+    {fmt : Nat} {ch sr : Int} (cfg : CfgOf fmt ch sr h) (hc : h.container = .au) (hsr : sr ≤ 0x7FFFFFFF)
+    (ix pos fmt0 : Nat) (ch0 sr0 : Int) (hraw : containerOf fmt0 ≠ some .raw) :
+    ∃ h' s', openHandle ix ⟨(closeHandle h s).bytes, pos⟩ .rw fmt0 ch0 sr0 = .ok h' s' ∧ ReopenedRw h F D h' s' := by
+  rw [v.close_au hc]
+  have henc : encOf .au (codecOf h.fmtWord) h.big = some h.enc := by
+    have := cfg.enc; rw [hc] at this; rw [cfg.fmtWord]; exact this
+  have hcodec := encOf_au_codecs henc
+  have hch : 1 ≤ h.ch ∧ h.ch ≤ 1024 := by rw [cfg.hch]; have := cfg.chr; omega
+  have hsr' : 1 ≤ h.sr ∧ h.sr ≤ 0x7FFFFFFF := by rw [cfg.hsr]; exact ⟨cfg.srr, hsr⟩
+  have hparse := auParse_image h.big (codecOf h.fmtWord) h.sr h.ch D hcodec hch ⟨by omega, hsr'.2⟩
+  obtain ⟨hf1, hf2⟩ := au_fmtWord_facts h.big _ hcodec
+  have hlen : (auHdr_ct h.big (codecOf h.fmtWord) h.sr h.ch D.length).length = 24 := by
+    cases hb : h.big <;> simp [auHdr_ct]
+  have hne : auHdr_ct h.big (codecOf h.fmtWord) h.sr h.ch D.length ++ D ≠ [] := by
+    intro hc0
+    have := congrArg List.length hc0
+    rw [List.length_append, hlen] at this; simp at this
+  obtain ⟨h', s', ho, hfr, h1, h2, h3, _, h5, _, h7, h8, h9⟩ :=
+    openHandle_rw_parsed ix _ pos fmt0 ch0 sr0 _ .au h.enc hne hraw (by rw [parseAny_au]; exact hparse) hf1
+      (by rw [hf2]; exact henc) hsr'.1
+  have hO : hdrLenOf h' = 24 := by simp [hdrLenOf, h3]
+  refine ⟨h', s', ho, ReopenedRw.of_open ho h1 h2 ?_ (by rw [h8, hO]) h5 h7 v.dlen ?_ ?_⟩
+  · rw [hfr]
+    have := initFrames_plain 24 D.length (h.enc.nbytes * h.ch) v.bw_pos
+    simp only at this ⊢
+    rw [this, v.dlen]
+    have e : h.enc.nbytes * h.ch = h.bw := rfl
+    rw [e, Nat.mul_div_cancel _ v.bw_pos]
+  · rw [h9, hO, ← hlen]; simp
+  · rw [h9, hO, List.length_append, hlen]; omega
+
+end Sf
